@@ -389,3 +389,9 @@ def build(sess):
     sess.explanation = ('Index.__init__ and Index.intersection are executed symbolically on an input list of unknown length; set '
                         'equalities are proved pointwise with loop invariants and the functions\' own contracts as induction '
                         'hypotheses; termination by the measure len(bboxes) (construction) and tree height (query).')
+
+
+def fallback(sess):
+    r = native('n_c14', 'search', {})
+    r['what'] = 'n_c14.search'
+    return [r]
